@@ -744,4 +744,98 @@ theorem stable_of_check (T : Tables) (S : Sim)
     | none => rw [(hnone r h).2]; rfl
     | some dir => obtain ⟨hm, rfl⟩ := hfind r dir h; exact h1 dir hm
 
+/-! ## snapshots: a directory to which restarts are appended -/
+
+/-- `S` with further restart directories appended -/
+def extend (S : Sim) (extra : List RestartDir) : Sim := { S with restarts := S.restarts ++ extra }
+
+theorem dget_append_some {κ ν : Type} [BEq κ] (A B : List (κ × ν)) (k : κ) (v : ν) (h : dget A k = some v) :
+    dget (A ++ B) k = some v := by
+  unfold dget at h ⊢
+  rw [List.find?_append]
+  cases hf : A.find? (fun kv => kv.1 == k) with
+  | none => simp [hf] at h
+  | some kv => simpa [hf] using h
+
+theorem allFiles_extend (S : Sim) (extra : List RestartDir) :
+    allFiles (extend S extra) = allFiles S ++ allFiles { S with restarts := extra } := by
+  simp [allFiles, extend]
+
+theorem dataCore_extend (S : Sim) (extra : List RestartDir) (fnd : Option (Bool × Str))
+    (h : (dataCore S fnd).2 = none) : dataCore (extend S extra) fnd = dataCore S fnd := by
+  cases fnd with
+  | none => rfl
+  | some bf =>
+    obtain ⟨b, f⟩ := bf
+    cases b with
+    | false => rfl
+    | true =>
+      cases hd : dget (allFiles S) f with
+      | none => simp [dataCore, hd] at h
+      | some keys =>
+        have hd' : dget (allFiles (extend S extra)) f = some keys := by
+          rw [allFiles_extend]; exact dget_append_some _ _ _ _ hd
+        simp only [dataCore, hd, hd']
+
+theorem dataLines_extend (T : Tables) (S : Sim) (extra : List RestartDir) (dir : RestartDir)
+    (vf : VarsAndFiles) (stale : Option (Bool × Str)) (h : (dataLines T S dir vf stale).err = none) :
+    dataLines T (extend S extra) dir vf stale = dataLines T S dir vf stale := by
+  unfold dataLines at h ⊢
+  simp only [] at h ⊢
+  have e1 : (extend S extra).simpath = S.simpath := rfl
+  have e2 : (extend S extra).simname = S.simname := rfl
+  split
+  · rfl
+  · rename_i hv
+    simp only [hv, if_false] at h
+    cases hf : foundFile vf stale with
+    | error e => rfl
+    | ok fnd =>
+      simp only [hf] at h
+      simp only [dataCore_extend S extra fnd h]
+
+theorem processRestart_extend (T : Tables) (S : Sim) (extra : List RestartDir) (dir : RestartDir)
+    (vf : VarsAndFiles) (stale : Option (Bool × Str)) (h : (processRestart T S dir vf stale).err = none) :
+    processRestart T (extend S extra) dir vf stale = processRestart T S dir vf stale := by
+  have hd : (dataLines T S dir vf stale).err = none := finishLines_err_none h
+  unfold processRestart
+  rw [dataLines_extend T S extra dir vf stale hd]
+  rfl
+
+theorem find?_extend (S : Sim) (extra : List RestartDir) (r : Nat) (dir : RestartDir)
+    (h : S.restarts.find? (fun d => d.nbr == r) = some dir) :
+    (extend S extra).restarts.find? (fun d => d.nbr == r) = some dir := by
+  simp [extend, List.find?_append, h]
+
+theorem scanOf_extend (T : Tables) (S : Sim) (extra : List RestartDir) (r : Nat) (dir : RestartDir)
+    (h : S.restarts.find? (fun d => d.nbr == r) = some dir) :
+    scanOf T (extend S extra) r = scanOf T S r := by
+  simp only [scanOf, filesOf, find?_extend S extra r dir h, h]
+  rfl
+
+/-- a snapshot is stable with respect to the scans and blocks of the final
+directory: restarts that are appended later do not change what an earlier
+restart contributes -/
+theorem stable_of_prefix (T : Tables) (S : Sim) (extra : List RestartDir)
+    (hfin : Stable T (extend S extra) (scanOf T (extend S extra)) (blkOf T (extend S extra)))
+    (hp : ∀ d ∈ S.restarts, S.restarts.find? (fun x => x.nbr == d.nbr) = some d ∧
+      (processRestart T S d (scanOf T S d.nbr) none).err = none) :
+    Stable T S (scanOf T (extend S extra)) (blkOf T (extend S extra)) := by
+  have hfind : ∀ r dir, S.restarts.find? (fun d => d.nbr == r) = some dir → dir ∈ S.restarts ∧ dir.nbr = r := by
+    intro r dir h
+    exact ⟨List.mem_of_find?_eq_some h, by simpa using List.find?_some h⟩
+  refine ⟨?_, hfin.keys, ?_, hfin.blk_head, hfin.blk_ok, hfin.blk_one⟩
+  · intro r dir h
+    exact (scanOf_extend T S extra r dir h).symm
+  · intro r dir h stale
+    obtain ⟨hm, hr⟩ := hfind r dir h
+    have hs : scanOf T (extend S extra) r = scanOf T S r := scanOf_extend T S extra r dir h
+    have hp0 : (processRestart T S dir (scanOf T S r) none).err = none := by
+      have := (hp dir hm).2; rw [hr] at this; exact this
+    have hext := processRestart_extend T S extra dir (scanOf T S r) none hp0
+    have hblk : blkOf T (extend S extra) r = (processRestart T S dir (scanOf T S r) none).lines := by
+      simp only [blkOf, find?_extend S extra r dir h, hs, hext]
+    rw [hs, hblk]
+    exact processRestart_stale_indep T S dir _ hp0 stale
+
 end AurelVerif.CatalogLemmas
